@@ -6,27 +6,27 @@ inductive Sexp where
   | list (xs : List Sexp)
   deriving Inhabited, Repr
 
-inductive Tok where
+inductive STok where
   | lp | rp | at (s : String)
 
-def tokenize (s : String) : List Tok :=
-  let rec go (cs : List Char) (cur : List Char) (acc : List Tok) : List Tok :=
-    let flush (acc : List Tok) := if cur.isEmpty then acc else Tok.at (String.ofList cur.reverse) :: acc
+def tokenize (s : String) : List STok :=
+  let rec go (cs : List Char) (cur : List Char) (acc : List STok) : List STok :=
+    let flush (acc : List STok) := if cur.isEmpty then acc else STok.at (String.ofList cur.reverse) :: acc
     match cs with
     | [] => (flush acc).reverse
-    | '(' :: r => go r [] (Tok.lp :: flush acc)
-    | ')' :: r => go r [] (Tok.rp :: flush acc)
+    | '(' :: r => go r [] (STok.lp :: flush acc)
+    | ')' :: r => go r [] (STok.rp :: flush acc)
     | ' ' :: r => go r [] (flush acc)
     | c :: r => go r (c :: cur) acc
   go s.toList [] []
 
 /-- Parses one expression; returns it with the remaining tokens. -/
-partial def parseOne : List Tok → Option (Sexp × List Tok)
-  | Tok.at s :: r => some (.atom s, r)
-  | Tok.lp :: r =>
-    let rec items (ts : List Tok) (acc : List Sexp) : Option (Sexp × List Tok) :=
+partial def parseOne : List STok → Option (Sexp × List STok)
+  | STok.at s :: r => some (.atom s, r)
+  | STok.lp :: r =>
+    let rec items (ts : List STok) (acc : List Sexp) : Option (Sexp × List STok) :=
       match ts with
-      | Tok.rp :: r => some (.list acc.reverse, r)
+      | STok.rp :: r => some (.list acc.reverse, r)
       | [] => none
       | _ =>
         match parseOne ts with
